@@ -508,15 +508,26 @@ Proof. intros [cc [H1 [H2 H3]]]. exists cc. split; [exact H1|]. split; [exact H2
 Lemma zero_skip_read (c : chain) cur : cursor_read K V c (zero_skip cur) = cursor_read K V c cur.
 Proof. reflexivity. Qed.
 
+Lemma cursor_to_zero_skip_next (c : chain) cur : (c_skip cur <= 0)%Z ->
+  fst (cursor_to K V IDXNUM c cur CNext) = fst (cursor_to K V IDXNUM c (zero_skip cur) CNext) /\
+  (fst (cursor_to K V IDXNUM c cur CNext) = CROk ->
+   snd (cursor_to K V IDXNUM c cur CNext) = snd (cursor_to K V IDXNUM c (zero_skip cur) CNext)).
+Proof.
+  intros Hle. unfold cursor_to, zero_skip. cbn [c_cn c_pos c_skip c_pend].
+  assert (E1 : (0 <? c_skip cur)%Z = false) by (apply Z.ltb_ge; exact Hle). rewrite E1.
+  change (0 <? 0)%Z with false.
+  repeat match goal with
+         | |- context [match ?x with _ => _ end] => destruct x
+         end; cbn [fst snd]; split; try reflexivity; intros H; try discriminate H; reflexivity.
+Qed.
+
 Lemma scan_marker_back (c : chain) cur fuel : (c_skip cur <= 0)%Z ->
   scan_next K V IDXNUM fuel c cur = scan_next K V IDXNUM fuel c (zero_skip cur).
 Proof.
   intros Hle. destruct fuel as [|f]; [reflexivity|]. cbn [scan_next].
-  assert (E : cursor_to K V IDXNUM c cur CNext = cursor_to K V IDXNUM c (zero_skip cur) CNext).
-  { unfold cursor_to, zero_skip. cbn [c_cn c_pos c_skip c_pend].
-    assert (E1 : (0 <? c_skip cur)%Z = false) by (apply Z.ltb_ge; exact Hle). rewrite E1.
-    change (0 <? 0)%Z with false. reflexivity. }
-  rewrite E. reflexivity.
+  destruct (cursor_to_zero_skip_next c cur Hle) as [Hr Hc].
+  destruct (cursor_to K V IDXNUM c cur CNext) as [r1 c1]. destruct (cursor_to K V IDXNUM c (zero_skip cur) CNext) as [r2 c2].
+  cbn [fst snd] in Hr, Hc. subst r2. destruct r1; try reflexivity. rewrite (Hc eq_refl). reflexivity.
 Qed.
 
 Lemma scan_marker_fwd (c : chain) cur id p e fuel : (0 < c_skip cur)%Z ->
@@ -672,15 +683,26 @@ Proof.
 Qed.
 
 (* ---- backward scans of cursors that carry a pending-step marker ---- *)
+Lemma cursor_to_zero_skip_prev (c : chain) cur : (0 <= c_skip cur)%Z ->
+  fst (cursor_to K V IDXNUM c cur CPrev) = fst (cursor_to K V IDXNUM c (zero_skip cur) CPrev) /\
+  (fst (cursor_to K V IDXNUM c cur CPrev) = CROk ->
+   snd (cursor_to K V IDXNUM c cur CPrev) = snd (cursor_to K V IDXNUM c (zero_skip cur) CPrev)).
+Proof.
+  intros Hle. unfold cursor_to, zero_skip. cbn [c_cn c_pos c_skip c_pend].
+  assert (E1 : (c_skip cur <? 0)%Z = false) by (apply Z.ltb_ge; exact Hle). rewrite E1.
+  change (0 <? 0)%Z with false.
+  repeat match goal with
+         | |- context [match ?x with _ => _ end] => destruct x
+         end; cbn [fst snd]; split; try reflexivity; intros H; try discriminate H; reflexivity.
+Qed.
+
 Lemma scan_prev_marker_fwd (c : chain) cur fuel : (0 <= c_skip cur)%Z ->
   scan_prev K V IDXNUM fuel c cur = scan_prev K V IDXNUM fuel c (zero_skip cur).
 Proof.
   intros Hle. destruct fuel as [|f]; [reflexivity|]. cbn [scan_prev].
-  assert (E : cursor_to K V IDXNUM c cur CPrev = cursor_to K V IDXNUM c (zero_skip cur) CPrev).
-  { unfold cursor_to, zero_skip. cbn [c_cn c_pos c_skip c_pend].
-    assert (E1 : (c_skip cur <? 0)%Z = false) by (apply Z.ltb_ge; exact Hle). rewrite E1.
-    change (0 <? 0)%Z with false. reflexivity. }
-  rewrite E. reflexivity.
+  destruct (cursor_to_zero_skip_prev c cur Hle) as [Hr Hc].
+  destruct (cursor_to K V IDXNUM c cur CPrev) as [r1 c1]. destruct (cursor_to K V IDXNUM c (zero_skip cur) CPrev) as [r2 c2].
+  cbn [fst snd] in Hr, Hc. subst r2. destruct r1; try reflexivity. rewrite (Hc eq_refl). reflexivity.
 Qed.
 
 Lemma scan_prev_marker_back (c : chain) cur id p e fuel : (c_skip cur < 0)%Z ->
